@@ -11,12 +11,20 @@ RULE = ('generated programs whose processes wait on condition trees (depth <=3; 
         'condition with >=2 operands reached a decision; distinct = history digest')
 REAL = ['onl.sim.events.Condition/AllOf/AnyOf/ConditionValue', 'onl.sim.core.Environment']
 STUBS = c02.STUBS
-ASSUMPTIONS = ['only the root of a tree is waited on and nested conditions are never shared (the quantifier is over '
-               'trees); a nested node is required to trigger only while all its ancestors are untriggered',
+ASSUMPTIONS = ['a nested node nobody ever waits on is required to trigger only while all its ancestors are untriggered '
+               '(afterwards nobody can tell); a nested node somebody waits on, at any time, is held to the full statement',
                'operand history (step and outcome of each operand) is taken from the observed run']
 PROBES = ['operand_between_trigger_and_processing', 'nested_inner_decided_at_construction', 'failure_after_satisfaction',
           'failure_before_satisfaction', 'empty_operands', 'duplicate_leaf', 'foreign_refused', 'depth3',
-          'late_failure_escapes']
+          'late_failure_escapes', 'nested_node_waited_on', 'nested_node_awaited_after_detachment']
+
+
+def _late_waiter_only(case, vs):
+    return bool(vs) and all(cl == 'C05.1/late-waiter' for cl, _ in vs)
+
+
+# key of an `open:` line in known_findings.txt -> does this (case, violations) pair show exactly that finding?
+KNOWN = {'C05-nested-condition-first-awaited-after-parent-fired': _late_waiter_only}
 
 
 def gen(rng, tier):
@@ -43,6 +51,9 @@ def gen(rng, tier):
         # a waiter is interrupted while it waits for a condition and then waits for the same condition again
         w['interrupt'] = rng.choice([1, 2])
         prof.handlers = ['rewait', 'rewait', 'cont', 'ret']
+    if rng.random() < 0.4:
+        # nested conditions are events of their own: someone waits on an inner node as well as (or after) the root
+        w['subwait'] = rng.choice([1, 2, 3])
     return gen_program(rng, prof)
 
 
@@ -76,6 +87,7 @@ def check(log, case, cvs_final):
     T = {}           # label -> list of (G, step)
     parent = {}
     refused = set()
+    yielded = set()
     for r in log:
         tag = r[0]
         if tag == 'K0':
@@ -85,13 +97,17 @@ def check(log, case, cvs_final):
             nodes[label] = {'mode': mode, 'kids': kids, 'pre': pre, 'K0': k0.get(label, g - 1), 'K': g, 'st': st,
                             'pid': pid}
             for k in kids:
-                if k in nodes:
-                    parent[k] = label
+                if k in nodes and label not in parent.setdefault(k, []):
+                    parent[k].append(label)
         elif tag == 'P':
             if r[2] not in P:
                 P[r[2]] = (r[1], r[4], r[5], r[6], r[3])
         elif tag == 'T':
             T.setdefault(r[2], []).append((r[1], r[7]))
+        elif tag == 'Y':
+            yielded.add(r[6])
+            if '/' in r[6]:
+                stats['nested_node_waited_on'] = 1
         elif tag == 'O' and r[6] == 'cond-refused':
             refused.add('%s.%d' % (r[4], r[5]))
     # order of all P records for simulation
@@ -138,10 +154,54 @@ def check(log, case, cvs_final):
             stats['nested_inner_decided_at_construction'] = 1
 
     def ancestors(label):
-        a = parent.get(label)
-        while a is not None:
+        seen, todo = set(), list(parent.get(label, []))
+        while todo:
+            a = todo.pop()
+            if a in seen:
+                continue
+            seen.add(a)
             yield a
-            a = parent.get(a)
+            todo.extend(parent.get(a, []))
+
+    # Known finding (see known_findings.txt): when a condition is processed it detaches every nested condition that
+    # nobody is waiting for at that moment (the pinned test-suite demands it); such a node can never trigger any more,
+    # and somebody who starts waiting for it afterwards is stranded. `cut[label]` = action at which that happened.
+    waits = {}       # label -> list of [g_from, g_to) during which some process waits for it
+    open_w = {}
+    for r in log:
+        if r[0] == 'Y':
+            open_w[(r[4], r[5], r[6])] = r[1]
+        elif r[0] == 'R' and (r[4], r[5], r[6]) in open_w:
+            waits.setdefault(r[6], []).append((open_w.pop((r[4], r[5], r[6])), r[1]))
+    for (pid_, i_, lb_), g0 in open_w.items():
+        waits.setdefault(lb_, []).append((g0, float('inf')))
+    cut = {}
+
+    def watched(lb, g, excl):
+        if any(a < g <= b for a, b in waits.get(lb, [])):
+            return True
+        for q in parent.get(lb, []):
+            if q == excl or nodes[q]['K'] > g:
+                continue
+            if q in P and P[q][0] < g:
+                continue
+            if cut.get(q, float('inf')) <= g:
+                continue
+            return True
+        return False
+
+    def cut_kids(a, g):
+        for k in nodes[a]['kids']:
+            if k not in nodes or nodes[k]['K'] > g:
+                continue
+            if k in P and P[k][0] < g:
+                cut_kids(k, g)            # an already processed node has no waiters: the sweep passes through it
+            elif not watched(k, g, a):
+                cut.setdefault(k, g)
+                cut_kids(k, g)
+    for g, lb in Pseq:
+        if lb in nodes:
+            cut_kids(lb, g)
 
     def anc_triggered_before(label, g):
         for a in ancestors(label):
@@ -178,9 +238,13 @@ def check(log, case, cvs_final):
                              (label, n['mode'], list(n['kids']), tg, tst,
                               'at construction' if when == 'construct' else 'when an operand was processed', g, st, kid)))
         else:
-            if dec is not None and not anc_triggered_before(label, dec[1] + 1):
+            if dec is not None and (not anc_triggered_before(label, dec[1] + 1) or
+                                    any(b > dec[1] for a, b in waits.get(label, []))):
                 kind, g, st, kid, when = dec
-                viol.append(('C05.1', 'condition %s (%s of %s) never triggered although its predicate held %s (deciding '
+                late = label in cut and cut[label] < g and anc_triggered_before(label, g + 1)
+                if late:
+                    stats['nested_node_awaited_after_detachment'] = 1
+                viol.append(('C05.1/late-waiter' if late else 'C05.1', 'condition %s (%s of %s) never triggered although its predicate held %s (deciding '
                              'operand %s, step %s)' % (label, n['mode'], list(n['kids']),
                                                        'at construction' if when == 'construct' else 'later', kid, st)))
         # outcome of the node
@@ -282,6 +346,7 @@ def check(log, case, cvs_final):
             res = 'handled'
         return res
 
+    viol.sort(key=lambda v: v[0] == 'C05.1/late-waiter')     # anything else in the same run is reported first
     return viol, stats, nontrivial, cond_handling
 
 
